@@ -343,7 +343,7 @@ def gramSchmidOrth( A, alignVec=None ):
         curVec = A[ :, i ]
         normCurVec = np.linalg.norm( curVec )
         normAlignVec = np.linalg.norm( alignVec )
-        if np.allclose( np.dot( curVec, alignVec ), normCurVec * normAlignVec ):
+        if np.isclose( np.dot( curVec, alignVec ) / ( normCurVec * normAlignVec ), 1.0 ):
             B[ :, : dim - i ] = np.copy( A[ :, i: ] )
             B[ :, i: ] = np.copy( A[ :, : dim - i ])
     
